@@ -186,6 +186,9 @@ func runOne(l *Loaded, hs HarnessSpec, seed int) *HarnessResult {
 	if v, ok := hs.Params["$maxsteps"]; ok {
 		cfg.MaxSteps = v
 	}
+	if v, ok := hs.Params["$maxalloc"]; ok {
+		cfg.MaxAlloc = v
+	}
 	if v, ok := hs.Params["$dedup"]; ok {
 		cfg.Dedup = v != 0
 	}
